@@ -75,6 +75,22 @@ class World:
                     d["rows_idx"] = [[self.intern.uid(x) for x in tuple(o[r])] for r in range(n)] if cols else []
                 except Exception as e:     # the observation itself failing is reported by the judge, not by the harness
                     d["rows_idx"] = [["raised " + err_class(e)]]
+                if cols:
+                    # negative row positions count from the end; positions outside [-n, n) are not rows (reading one must raise)
+                    try:
+                        d["rows_neg"] = [[self.intern.uid(x) for x in tuple(o[r])] for r in range(-n, 0)]
+                    except Exception as e:
+                        d["rows_neg"] = [["raised " + err_class(e)]]
+                    oob = []
+                    for r in (-n - 1, -2 * n, -2 * n - 1, n, n + 2):
+                        if -n <= r < n:
+                            continue
+                        try:
+                            tuple(o[r])
+                            oob.append(r)
+                        except Exception:
+                            pass
+                    d["rows_oob"] = oob
                 try:
                     d["rows_iter"] = [[self.intern.uid(x) for x in tuple(r)] for r in o]
                 except Exception as e:
@@ -268,6 +284,14 @@ def choose_step(rng, w, flavor, last=None):
     if op == "select":
         t = rng.choice(tabs)
         names = [c for c in w.slots[t].column_names() if isinstance(c, str)]
+        # a column can also be asked for by its advertised accessor (sanitised name, name__N of a repeated name, colN_ of an
+        # unnamed column) or by another spelling of its name: the selection is a new table all the same
+        try:
+            for j in range(len(w.slots[t].cols())):
+                names += list(accessor_names(w.slots[t], j))[:1]
+            names += [nm.upper() for nm in names[:2]]
+        except Exception:
+            pass
         if not names:
             return {"op": "gc"}
         return {"op": "select", "dst": dst, "src": t, "names": [rng.choice(names) for _ in range(rng.randint(1, 2))]}
